@@ -184,6 +184,8 @@ def rule_typeguard(ctx):
             arg = norm(c[2][0])
             ctx.ob("TYPE-GUARD", "guard argument is package_type().package_type()", arg[0] == "call" and arg[1] == "PurlShape::package_type", fn=key, site=body.site(b), detail=nshow(arg))
     ctx.ob("TYPE-GUARD", "a valid_type test exists in Display::fmt", found == 1, fn=key, detail="found %d" % found)
+    from .common import raw_type_alphabet_obligation
+    raw_type_alphabet_obligation(ctx, facts, "TYPE-GUARD")
 
 
 def rule_escset(ctx):
